@@ -261,35 +261,33 @@ Section Collapse.
         destruct (IHr _ _ _ _ Er) as [G1 [G2 [G3 G4]]].
         destruct (nontip_leaves c Hwc (decide_nontip _ _ _ _ Ed)) as [_ Hlc].
         unfold basic_inv. kidsplit. repeat split; try tauto; try lia.
-        * rewrite G1. destruct top; reflexivity.
-        * rewrite Hlc, <- H4, <- G4. kidsplit. perm.
+        all: try (rewrite G1; destruct top; reflexivity).
+        rewrite Hlc, <- H4, <- G4. perm.
       + destruct (proc c true (S k) 0) as [b1 a1] eqn:Ec.
         destruct (proc_go top r (k + 1 + span c) (S m)) as [b' a'] eqn:Er.
         injection Hp as Hb Ha. subst b a.
         destruct (Hc true _ _ _ _ Hwc Ec) as [H1 [H2 [H3 H4]]].
         destruct (IHr _ _ _ _ Er) as [G1 [G2 [G3 G4]]].
         unfold basic_inv. simpl app. kidsplit. repeat split; try tauto; try lia.
-        * rewrite G1. destruct top; reflexivity.
-        * rewrite wf_sub_unfold. kidsplit. apply andb_true_iff. split.
-          -- apply Nat.eqb_eq. rewrite H1, H2, (wf_sub_up c Hwc). reflexivity.
-          -- kidsplit. tauto.
-        * rewrite (rebuilt_leaves c b1 a1 Hwc H1 H2 H4), <- G4. kidsplit. reflexivity.
+        * rewrite wf_sub_unfold. kidsplit. repeat split; try tauto.
+          apply Nat.eqb_eq. rewrite H1, H2, (wf_sub_up c Hwc). reflexivity.
+        * rewrite (rebuilt_leaves c b1 a1) by (try assumption; kidsplit; assumption).
+          rewrite <- G4. reflexivity.
     - inversion IH as [|? ? _ Hr]; subst. kidsplit. specialize (IHr Hr Hw).
       rewrite proc_go_none in Hp. destruct top.
       + destruct (proc_go true r k (S m)) as [b' a'] eqn:Er. injection Hp as Hb Ha. subst b a.
         destruct (IHr _ _ _ _ Er) as [G1 [G2 [G3 G4]]].
-        unfold basic_inv. simpl app. kidsplit. repeat split; auto. lia.
+        simpl in G1. unfold basic_inv. simpl app. kidsplit. repeat split; try tauto; try lia.
       + destruct (IHr _ _ _ _ Hp) as [G1 [G2 [G3 G4]]].
-        unfold basic_inv. kidsplit. repeat split; auto.
+        unfold basic_inv. kidsplit. repeat split; try tauto; try lia.
   Qed.
 
   Lemma proc_basic : forall t top k m b a,
       wf_sub t = true -> proc t top k m = (b, a) -> basic_inv top (uslots t) b a.
   Proof.
     induction t as [n cm sl IH] using utree_ind'. intros top k m b a Hw Hp.
-    rewrite proc_eq in Hp. simpl uslots. eapply proc_go_basic; eauto.
-    - eapply Forall_impl; [|exact IH]. intros [[e c]|]; auto.
-    - now apply (wf_sub_kids (UNode n cm sl)).
+    rewrite proc_eq in Hp. simpl uslots.
+    exact (proc_go_basic top sl IH (wf_sub_kids (UNode n cm sl) Hw) k m b a Hp).
   Qed.
 
   (** the root: no parent slot *)
@@ -297,7 +295,7 @@ Section Collapse.
     wf (UNode n cm sl) = true -> proc (UNode n cm sl) true k m = (b, a) -> basic_inv true sl b a.
   Proof.
     intros Hw Hp. rewrite proc_eq in Hp. rewrite wf_unfold in Hw. apply andb_true_iff in Hw.
-    eapply proc_go_basic; eauto; [|tauto].
+    destruct Hw as [_ Hw]. refine (proc_go_basic true sl _ Hw k m b a Hp).
     apply Forall_forall. intros [[e c]|] _; auto. intros. eapply proc_basic; eauto.
   Qed.
 
